@@ -97,6 +97,23 @@ def castInt (k : RootKind) (n : Int) : Option CV :=
     | none => none
   | _ => none
 
+/-- what `scalarKey` (compile/constant_value.go) compares: booleans, numbers, strings and enum
+items, as the generated map / set literal will compare them when it is compiled. -/
+inductive SKey where
+  | b (x : Bool) | i (x : Int) | d (bits : Nat) | s (x : Str)
+  deriving DecidableEq, Repr
+
+/-- a double as a Go map key: NaN equals nothing (no key), negative zero equals zero -/
+def dblKey (bits : Nat) : Option SKey :=
+  if (bits / 2 ^ 52) % 2048 = 2047 ∧ bits % 2 ^ 52 ≠ 0 then none
+  else if bits = 2 ^ 63 then some (.d 0) else some (.d bits)
+
+/-- `duplicateScalar`: some value with a key equal to an earlier one -/
+def dupKeys : List (Option SKey) → List SKey → Bool
+  | [], _ => false
+  | none :: rest, seen => dupKeys rest seen
+  | some k :: rest, seen => if seen.contains k then true else dupKeys rest (k :: seen)
+
 /-- `buildConstantStruct`: all keys must be string literals; a later duplicate key wins. -/
 def buildStruct : List (CV × CV) → List (Name × CV) → Option (List (Name × CV))
   | [], acc => some acc
@@ -231,7 +248,8 @@ def castF : Nat → GProg → Nat → CV → LType → Option CV
         match buildStruct kvs [] with
         | none => none
         | some fs => (castFieldsF f p m sm sn 0 fields fs).map .struct
-      | .map kt vt => (castPairsF f p m kvs kt vt).map .map
+      | .map kt vt => (castPairsF f p m kvs kt vt).bind fun kvs' =>
+          if dupKeys (kvs'.map fun kv => skeyF f p kv.1) [] then none else some (.map kvs')
       | _ => none
     | .struct fs =>
       match rootKind p (rootOf p t) with
@@ -239,12 +257,14 @@ def castF : Nat → GProg → Nat → CV → LType → Option CV
       | _ => none
     | .list xs =>
       match rootKind p (rootOf p t) with
-      | .set e => (castValsF f p m xs e).map .set
+      | .set e => (castValsF f p m xs e).bind fun xs' =>
+          if dupKeys (xs'.map (skeyF f p)) [] then none else some (.set xs')
       | .list e => (castValsF f p m xs e).map .list
       | _ => none
     | .set xs =>
       match rootKind p (rootOf p t) with
-      | .set e => (castValsF f p m xs e).map .set
+      | .set e => (castValsF f p m xs e).bind fun xs' =>
+          if dupKeys (xs'.map (skeyF f p)) [] then none else some (.set xs')
       | _ => none
     | .eref em en item val =>
       if rootOf p t = some (.named em en) then some (.eref em en item val) else none
@@ -256,6 +276,21 @@ def castF : Nat → GProg → Nat → CV → LType → Option CV
       | some (.item em en item val) =>
         if rootOf p t = some (.named em en) then some (.eref em en item val) else none
       | none => none
+termination_by structural fuel => fuel
+
+/-- `scalarKey` on a value of the spec: a reference stands for the value of its constant -/
+def skeyF : Nat → GProg → CV → Option SKey
+  | _, _, .bool b => some (.b b)
+  | _, _, .int n => some (.i n)
+  | _, _, .dbl bits => dblKey bits
+  | _, _, .str s => some (.s s)
+  | _, _, .eref _ _ _ val => some (.i val)
+  | 0, _, .cref _ _ => none
+  | f + 1, p, .cref cm cn =>
+    match constValueF f p cm cn with
+    | some v => skeyF f p v
+    | none => none
+  | _, _, _ => none
 termination_by structural fuel => fuel
 
 /-- a reference to constant `(cm, cn)` used at type `t`: the reference itself when `t` is the
